@@ -77,7 +77,30 @@ type parser struct {
 	chr               rune
 	insertSemicolon   bool
 	implicitSemicolon bool // Scratch when trying to seek to the next statement, etc.
+	nesting           int  // depth of the recursive descent (statements, assignment and unary expressions)
 }
+
+// maxNesting bounds the recursion of the parser (and with it the depth of the
+// tree the compiler and the evaluator recurse over): a megabyte of "[" must be
+// a SyntaxError, not an unrecoverable Go stack overflow.
+const maxNesting = 20000
+
+// tooDeep enters one level of recursive descent; beyond maxNesting it records
+// one error and skips the rest of the input, so that every caller unwinds.
+func (p *parser) tooDeep() bool {
+	p.nesting++
+	if p.nesting <= maxNesting {
+		return false
+	}
+	p.nesting--
+	p.error(p.idx, "Maximum nesting depth exceeded")
+	for p.token != token.EOF {
+		p.next()
+	}
+	return true
+}
+
+func (p *parser) leaveNesting() { p.nesting-- }
 
 // Parser is implemented by types which can parse JavaScript Code.
 type Parser interface {
